@@ -18,30 +18,30 @@ def main():
     for sid in ids:
         d = os.path.join(VERIF, 'seeded', sid)
         meta = json.load(open(os.path.join(d, 'meta.json')))
-        rc, out = sh('git status --porcelain --untracked-files=no', cwd='/repo')
-        if out.strip():
-            print('REFUSING: /repo has local modifications'); sys.exit(2)
+        # a scratch copy of the analysed part of /repo's working tree (the checks only read sources), so that
+        # concurrent work on /repo is not disturbed; equivalent to `git -C /repo apply` + `git checkout -- .`
+        scratch = '/tmp/seedrepo_%s' % sid
+        sh('rm -rf %s && mkdir -p %s && cp -r /repo/Cython /repo/pyximport %s/ && mkdir -p %s/docs/src && cp -r /repo/docs/src/userguide %s/docs/src/ ; '
+           'find %s -name "*.so" -delete' % (scratch, scratch, scratch, scratch, scratch, scratch))
         patch = os.path.join(d, 'patch.diff')
         if os.path.exists(os.path.join(d, 'patch_ported.diff')):
             patch = os.path.join(d, 'patch_ported.diff')
-        rc, out = sh('git apply %s' % patch, cwd='/repo')
+        rc, out = sh('patch -p1 --no-backup-if-mismatch -F3 < %s' % patch, cwd=scratch)
         if rc != 0:
-            rc, out = sh('patch -p1 --no-backup-if-mismatch -F3 < %s' % patch, cwd='/repo')
-        if rc != 0:
-            sh('git checkout -- .', cwd='/repo')
+            sh('rm -rf %s' % scratch)
             print(sid, 'PATCH DOES NOT APPLY to current /repo:', out[-300:])
             continue
         caught = {}
         try:
             for p in props:
-                rc, out = sh('./check %s --no-evidence --quiet --tier %s --scratch /tmp' % (p, tier), cwd=VERIF)
+                rc, out = sh('./check %s --no-evidence --quiet --tier %s --scratch /tmp --repo %s' % (p, tier, scratch), cwd=VERIF)
                 lines = [l for l in out.splitlines() if l.startswith('  ') and ' — ' in l]
                 if rc == 1:
                     caught[p] = [l.strip()[:300] for l in lines][:4]
                 elif rc == 2:
                     caught[p] = ['ANALYSIS-ERROR: ' + out.strip()[-300:]]
         finally:
-            sh('git checkout -- .', cwd='/repo')
+            sh('rm -rf %s' % scratch)
             sh('rm -f /tmp/replay-C*.json')
         meta['checks_run'] = props
         meta['tier'] = tier
